@@ -182,6 +182,13 @@ class FuncAnalysis:
             if isinstance(p, ast.If):
                 in_body = any(child is s for s in p.body)
                 in_else = any(child is s for s in p.orelse)
+                # `if c: ...; return` + else-branch is the early-exit form `if c: ...; return` followed by the rest: the same
+                # statements, so the same (absence of) syntactic guard - an arm whose other arm always leaves is not "guarded"
+                other = p.orelse if in_body else p.body
+                if (in_body or in_else) and other and isinstance(other[-1], (ast.Return, ast.Raise, ast.Continue, ast.Break)) \
+                        and not (in_body and isinstance(p.body[-1], (ast.Return, ast.Raise, ast.Continue, ast.Break))):
+                    child = p
+                    continue
                 if in_body or in_else:
                     n = self.cfg.node_of(p.test)
                     c = self.sym.cmp(p.test, n.id if n else None, neg=in_else)
